@@ -10,14 +10,28 @@ centring, mean-shift pseudo-sample) equal those of batch PCA after any list of i
 uncentred.  The zero-mean branch test of `ipca` as coded before the repair is refuted by witness and proved
 harmless exactly when the running mean is never all-zero.
 
+Part I (continued): both precision storages as coded (dense: off-diagonal blocks assigned, BSR: duplicates summed) —
+incremental = batch for either, they differ on an antiparallel edge pair and coincide on simple graphs; the
+object-level models (`GMRFModel`, `PCAModel` on point clouds) equal the vector models on the stacked
+`as_vector()`s, `mean()` is the pointwise mean shape; the step `ipca` computes for a forgetting factor `f` (reduces to
+the no-forgetting step at `f = 1`; weighted-scatter identity for `f < 1`); `l = l[l > eps]; U[:len(l)]` on lists.
+
 Part II (Mathlib matrices, QR / SVD / sqrt as contract parameters): the `R`-matrix construction of `ipca`
 returns `(U, l)` with `Uᵀ diag(σ) U = U_aᵀ diag(s_a²) U_a + BᵀB`; with the contracts of QR and SVD the rows of
 `U` are orthonormal, so `(U, σ)` is an eigen-decomposition of the batch scatter, and two such decompositions
 without zero eigenvalues span the same principal subspace.
+
+Part II (continued): no full-rank hypothesis — `(R W)(R W)ᵀ = R Rᵀ` whether or not `W = [U_a; B̃]` has orthonormal
+rows, hence the rows of `U` with non-zero `σ` are orthonormal for any rank of the residual; the eps discard with its
+threshold (hypothesis: no eigenvalue in `(0, eps]`, proved to be exactly the weakest, with the witness where it
+fails); `IpcaReach`: every state reachable by `pca` + any chain of increments, for any contract-satisfying results of
+sqrt / qr / svd, is an eigen-decomposition of the batch scatter with rank-many components; two reachable states of
+the same data have the same eigenvalues (with multiplicity) and the same principal subspace.
 -/
 import MenpoModel.Core.C11
 import MenpoModel.Lemmas.C11Stats
 import MenpoModel.Lemmas.C11Matrix
+import MenpoModel.Lemmas.C11Rank
 
 set_option linter.unusedSectionVars false
 
@@ -256,6 +270,390 @@ example : exP0 ++ exPc.flatten = (exP0 ++ [ex1 [0, 5], ex1 [2, 2]]) ++ [[ex1 [-1
   simp [exP0, exPc]
 end
 
+/-! ## Part I (continued) — both storages, object level, forgetting factor, the eps discard on lists -/
+
+
+/-! ### both storages -/
+
+/-- PROPERTY: for either value of the `sparse` flag — BSR triplets that are summed, or the dense array whose
+off-diagonal blocks are assigned — the stored precision after the increments is the stored precision of the batch
+model on the concatenated data; every graph (antiparallel edge pairs and repeated edges included), both modes,
+both bias conventions, any block-inverse routine -/
+theorem gmrf_stored_precision_eq_batch (sparse : Bool) (g : GSpec) (b : Bool) (inv : Mat → Mat) (X0 : Data)
+    (chunks : List Data) (h : EnoughSamples b X0) :
+    precisionStored sparse g inv (gmrfRun b g.feat X0 chunks).cov
+      = precisionStored sparse g inv (gmrfInit b g.feat (X0 ++ chunks.flatten)).cov := by
+  rw [gmrf_increment_refines_stats b g.feat g.feat_mean chunks X0 h]
+
+def exTwoWay : GSpec := ⟨2, 1, [(0, 1), (1, 0)], .subtraction⟩
+def exBlk : Nat → Mat := fun e => if e = 0 then (fun _ _ => 2) else (fun _ _ => 3)
+
+/-- as coded, the two storages disagree on an antiparallel edge pair: the dense array keeps the off-diagonal
+block of the *last* edge (`−3`), the BSR matrix holds the sum (`−5`); the diagonals agree (`5`) -/
+theorem dense_sparse_differ_on_antiparallel :
+    precisionOf exTwoWay exBlk 0 1 = -3 ∧ precisionOfSparse exTwoWay exBlk 0 1 = -5 ∧
+    precisionOf exTwoWay exBlk 0 0 = 5 ∧ precisionOfSparse exTwoWay exBlk 0 0 = 5 := by
+  refine ⟨?_, ?_, ?_, ?_⟩ <;> decide +kernel
+
+/-! ### object level -/
+
+theorem asMatrix_append (k : Nat) (A B : List Cloud) : asMatrix k (A ++ B) = asMatrix k A ++ asMatrix k B := by
+  simp [asMatrix]
+
+theorem asMatrix_flatten (k : Nat) (cs : List (List Cloud)) :
+    asMatrix k cs.flatten = (cs.map (asMatrix k)).flatten := by
+  simp only [asMatrix, List.map_flatten]
+  rfl
+
+/-- PROPERTY: `GMRFModel` (samples are objects) fed any list of increments is `GMRFVectorModel` fed the stacked
+`as_vector()`s of the same objects, chunk by chunk -/
+theorem gmrfObj_eq_vector (b : Bool) (g : GSpec) (S0 : List Cloud) (chunks : List (List Cloud)) :
+    gmrfObjRun b g S0 chunks = gmrfRun b g.feat (asMatrix g.k S0) (chunks.map (asMatrix g.k)) := by
+  simp only [gmrfObjRun, gmrfRun, gmrfObjInit, List.foldl_map]
+  rfl
+
+/-- PROPERTY: hence the object-level model after any increments is the object-level batch model on all samples -/
+theorem gmrfObj_refines_batch (b : Bool) (g : GSpec) (S0 : List Cloud) (chunks : List (List Cloud))
+    (h : EnoughSamples b (asMatrix g.k S0)) :
+    gmrfObjRun b g S0 chunks = gmrfObjInit b g (S0 ++ chunks.flatten) := by
+  rw [gmrfObj_eq_vector, gmrf_increment_refines_stats b g.feat g.feat_mean _ _ h, gmrfObjInit, asMatrix_append,
+    asMatrix_flatten]
+
+theorem pcaObj_refines_batch (k : Nat) (centred : Bool) (S0 : List Cloud) (chunks : List (List Cloud))
+    (h : S0 ≠ []) :
+    pcaObjRun k centred S0 chunks = pcaBatch centred (asMatrix k (S0 ++ chunks.flatten)) := by
+  have : pcaObjRun k centred S0 chunks = pcaRunSpec centred (asMatrix k S0) (chunks.map (asMatrix k)) := by
+    simp only [pcaObjRun, pcaRunSpec, List.foldl_map]
+  rw [this, ipca_spec_refines_batch centred _ _ (by simpa [asMatrix] using h), asMatrix_append, asMatrix_flatten]
+
+/-- `from_vector(as_vector(pc)) = pc` on the `k` coordinates of every point -/
+theorem fromVector_asVector (k : Nat) (pc : Cloud) (p c : Nat) (hc : c < k) :
+    fromVector k (asVector k pc) p c = pc p c := by
+  have hk : 0 < k := by omega
+  simp only [fromVector, asVector]
+  rw [Nat.mul_comm, Nat.mul_add_div hk, Nat.div_eq_of_lt hc, Nat.add_zero, Nat.mul_add_mod, Nat.mod_eq_of_lt hc]
+
+/-- the block of vertex `v` is the coordinates of point `v` -/
+theorem featVertex_asVector (k v : Nat) (pc : Cloud) (c : Nat) (hc : c < k) :
+    featVertex k v (asVector k pc) c = pc v c := by
+  have := fromVector_asVector k pc v c hc
+  simpa [fromVector, featVertex] using this
+
+/-- PROPERTY: `GMRFModel.mean()` after any increments is the pointwise mean shape of all the samples -/
+theorem gmrfObj_mean_pointwise (b : Bool) (g : GSpec) (S0 : List Cloud) (chunks : List (List Cloud))
+    (h : EnoughSamples b (asMatrix g.k S0)) (p c : Nat) (hc : c < g.k) :
+    gmrfObjMean g (gmrfObjRun b g S0 chunks) p c
+      = ((S0 ++ chunks.flatten).map fun pc => pc p c).sum / ((S0 ++ chunks.flatten).length : Rat) := by
+  rw [gmrfObj_refines_batch b g S0 chunks h]
+  simp only [gmrfObjMean, gmrfObjInit, gmrfInit, fromVector, mean, sumC, asMatrix, List.map_map, List.length_map]
+  congr 2
+  apply List.map_congr_left
+  intro pc _
+  exact fromVector_asVector g.k pc p c hc
+
+
+
+/-! non-vacuity at object level: three 2-point clouds in the plane, then one more -/
+section
+def exCloud (a b c d : Rat) : Cloud := fun p c' => if p = 0 then (if c' = 0 then a else b) else (if c' = 0 then c else d)
+def exGo : GSpec := ⟨2, 2, [(0, 1)], .subtraction⟩
+example : EnoughSamples false (asMatrix 2 [exCloud 0 0 1 2, exCloud 1 0 3 1, exCloud 0 2 2 2]) := by decide
+example : gmrfObjMean exGo (gmrfObjRun false exGo [exCloud 0 0 1 2, exCloud 1 0 3 1, exCloud 0 2 2 2]
+    [[exCloud 3 2 2 7]]) 1 1 = 3 ∧
+    (gmrfObjRun false exGo [exCloud 0 0 1 2, exCloud 1 0 3 1, exCloud 0 2 2 2] [[exCloud 3 2 2 7]]).n = 4 := by
+  constructor <;> decide +kernel
+end
+
+/-! ### forgetting factor -/
+
+theorem toF_cast_ne {n : Nat} (h : 2 ≤ n) : ((n : Rat) - 1) ≠ 0 := by
+  have : (2 : Rat) ≤ n := by exact_mod_cast h
+  intro h0; linarith
+
+/-- PROPERTY: with `f = 1` the step the code computes *is* the no-forgetting step (in covariance scale) -/
+theorem ipcaForget_one (centred : Bool) (st : PState) (B : Data) (hn : 2 ≤ st.n) :
+    ipcaForget centred 1 st.toF B = (ipcaStepSpec centred st B).toF := by
+  have h1 := toF_cast_ne hn
+  cases centred
+  · simp only [ipcaForget, ipcaStepSpec, ipcaUncentred, PState.toF, Bool.false_eq_true, if_false, FState.mk.injEq,
+      true_and]
+    funext i j
+    simp only [Nat.cast_add]
+    congr 1
+    · field_simp
+    · ring
+  · simp only [ipcaForget, ipcaStepSpec, ipcaCentred, PState.toF, if_true, FState.mk.injEq, true_and]
+    refine ⟨by funext i; ring, ?_⟩
+    funext i j
+    simp only [Nat.cast_add]
+    congr 1
+    · field_simp
+    · ring
+
+/-- hence a run whose forgetting factors are all 1 is the no-forgetting run -/
+theorem pcaRunForget_ones (centred : Bool) (chunks : List Data) : ∀ (st : PState), 2 ≤ st.n →
+    (chunks.map fun B => ((1 : Rat), B)).foldl (fun st s => ipcaForget centred s.1 st s.2) st.toF
+      = (chunks.foldl (ipcaStepSpec centred) st).toF := by
+  induction chunks with
+  | nil => intro st _; rfl
+  | cons B cs ih =>
+    intro st hn
+    simp only [List.map_cons, List.foldl_cons]
+    rw [ipcaForget_one centred st B hn]
+    apply ih
+    cases centred <;> simp [ipcaStepSpec, ipcaCentred, ipcaUncentred] <;> omega
+
+/-- PROPERTY: feeding increments with `forgetting_factor = 1` through the code path that handles any `f` gives the
+batch model on the concatenated data (covariance scale) -/
+theorem pcaRunForget_one_refines_batch (centred : Bool) (X0 : Data) (chunks : List Data) (h : 2 ≤ X0.length) :
+    pcaRunForget centred X0 (chunks.map fun B => ((1 : Rat), B)) = (pcaBatch centred (X0 ++ chunks.flatten)).toF := by
+  unfold pcaRunForget
+  rw [pcaRunForget_ones centred chunks _ (by simpa [pcaBatch] using h)]
+  have := ipca_spec_refines_batch centred chunks X0 (by intro h0; subst h0; simp at h)
+  unfold pcaRunSpec at this
+  rw [this]
+
+/-- PROPERTY (what `f < 1` computes, mean): one centred step from a batch model gives the weighted mean, weight `f`
+on every old sample and 1 on every new one -/
+theorem ipcaForget_mean_weighted (f : Rat) (X B : Data) (hX : X ≠ [])
+    (hd : f * (X.length : Rat) + (B.length : Rat) ≠ 0) (hB : B ≠ []) :
+    (ipcaForget true f (pcaBatch true X).toF B).mean = wmean f X B := by
+  have hn := len_pos_cast X hX
+  have hb := len_pos_cast B hB
+  funext i
+  simp only [ipcaForget, pcaBatch, PState.toF, if_true, wmean, mean]
+  field_simp
+
+/-- PROPERTY (what `f < 1` computes, weighted-scatter identity): the scatter `(f n_a + n_b − 1) · cov` held after
+one centred step is the `f`-weighted scatter about the `f`-weighted mean **minus** `f (1 − f)` times the old
+scatter — the old scatter enters with `f²` (the singular values are scaled by `f`), while mean, pseudo-sample and
+normaliser use the weight `f`.  It is a weighted scatter exactly when `f = 1` or `f = 0` (or the old scatter is 0) -/
+theorem ipcaForget_scatter_weighted (f : Rat) (X B : Data) (hX2 : 2 ≤ X.length) (hB : B ≠ [])
+    (hd : f * (X.length : Rat) + (B.length : Rat) ≠ 0)
+    (hd1 : f * (X.length : Rat) + (B.length : Rat) - 1 ≠ 0) (i j : Nat) :
+    (f * (X.length : Rat) + (B.length : Rat) - 1) * (ipcaForget true f (pcaBatch true X).toF B).cov i j
+      = wscatter f X B i j - f * (1 - f) * gram (centre X (mean X)) i j := by
+  have hX : X ≠ [] := by intro h0; subst h0; simp at hX2
+  have hn := len_pos_cast X hX
+  have hb := len_pos_cast B hB
+  have h1 : ((X.length : Rat) - 1) ≠ 0 := toF_cast_ne hX2
+  simp only [ipcaForget, pcaBatch, PState.toF, if_true, wscatter, gram_centre_raw]
+  unfold wmean mean
+  field_simp
+  ring
+
+/-- the uncentred branch: `(f n_a + n_b − 1) · cov = f² XᵀX + BᵀB` -/
+theorem ipcaForget_uncentred (f : Rat) (X B : Data) (hX2 : 2 ≤ X.length)
+    (hd1 : f * (X.length : Rat) + (B.length : Rat) - 1 ≠ 0) (i j : Nat) :
+    (f * (X.length : Rat) + (B.length : Rat) - 1) * (ipcaForget false f (pcaBatch false X).toF B).cov i j
+      = f * f * gram X i j + gram B i j := by
+  have h1 : ((X.length : Rat) - 1) ≠ 0 := toF_cast_ne hX2
+  simp only [ipcaForget, pcaBatch, PState.toF, Bool.false_eq_true, if_false, centre_zero]
+  field_simp
+
+/-- non-vacuity and a concrete value: `X = [0], [2]`, `B = [5]`, `f = 1/2`: weighted mean 3, held variance 17/2
+(normaliser 1; the weighted scatter is 9, the old scatter 2, `f (1 − f) = 1/4`) -/
+example : (ipcaForget true (1/2) (pcaBatch true [ex1 [0], ex1 [2]]).toF [ex1 [5]]).mean 0 = 3 ∧
+    (ipcaForget true (1/2) (pcaBatch true [ex1 [0], ex1 [2]]).toF [ex1 [5]]).cov 0 0 = 17/2 ∧
+    wscatter (1/2) [ex1 [0], ex1 [2]] [ex1 [5]] 0 0 = 9 ∧
+    (pcaBatch true [ex1 [0], ex1 [2], ex1 [5]]).toF.cov 0 0 = 19/3 := by
+  refine ⟨?_, ?_, ?_, ?_⟩ <;> decide +kernel
+
+
+
+/-! ### `l = l[l > eps]; U = U[: len(l)]` -/
+
+theorem ipcaKeep_nil_of_le (eps : Rat) (l : List Rat) (h : ∀ y ∈ l, ¬ eps < y) : ipcaKeep eps l = [] := by
+  simp only [ipcaKeep, List.filter_eq_nil_iff, decide_eq_true_eq]
+  exact h
+
+/-- PROPERTY (`U[: len(l), :]` after `l = l[l > eps]`): because the singular values arrive in descending order,
+taking the first `len(l)` rows selects exactly the rows whose eigenvalue passed the `> eps` test, in order -/
+theorem ipcaRows_eq_filter {α : Type} (eps : Rat) (l : List Rat) (hs : l.Pairwise (fun a b => b ≤ a)) :
+    ∀ (rows : List α), ipcaRows rows (ipcaKeep eps l)
+      = ((l.zip rows).filter (fun p => decide (eps < p.1))).map (·.2) := by
+  induction l with
+  | nil => intro rows; simp [ipcaRows, ipcaKeep]
+  | cons x l ih =>
+    intro rows
+    rw [List.pairwise_cons] at hs
+    by_cases hx : eps < x
+    · cases rows with
+      | nil => simp [ipcaRows]
+      | cons r rows =>
+        have := ih hs.2 rows
+        simp only [ipcaRows, ipcaKeep, List.filter_cons, hx, decide_true, if_true, List.length_cons, List.take_succ_cons,
+          List.zip_cons_cons, List.map_cons] at this ⊢
+        rw [this]
+    · have hall : ∀ y ∈ x :: l, ¬ eps < y := by
+        intro y hy
+        rcases List.mem_cons.mp hy with h | h
+        · rw [h]; exact hx
+        · intro hlt
+          have hyx : y ≤ x := hs.1 y h
+          exact hx (lt_of_lt_of_le hlt hyx)
+      rw [ipcaKeep_nil_of_le eps _ hall]
+      simp only [ipcaRows, List.length_nil, List.take_zero]
+      symm
+      rw [List.map_eq_nil_iff, List.filter_eq_nil_iff]
+      intro p hp
+      have := hall p.1 (List.of_mem_zip hp).1
+      simpa using this
+
+/-- and the eigenvalues kept are the same selection -/
+theorem ipcaKeep_eq_take (eps : Rat) (l : List Rat) (hs : l.Pairwise (fun a b => b ≤ a)) :
+    ipcaKeep eps l = l.take (ipcaKeep eps l).length := by
+  have := ipcaRows_eq_filter eps l hs l
+  simp only [ipcaRows] at this
+  rw [this]
+  simp only [ipcaKeep]
+  clear this hs
+  induction l with
+  | nil => rfl
+  | cons x l ih => by_cases hx : eps < x <;> simp [hx, ih]
+
+example : ([2, 1/2, 0] : List Rat).Pairwise (fun a b => b ≤ a) := by decide +kernel
+
+/-- the ordering contract is needed: with ascending eigenvalues `[0, 1]` and `eps = 1/2` the prefix keeps the row of
+the discarded eigenvalue -/
+example : ipcaRows ["row of 0", "row of 1"] (ipcaKeep (1/2) [0, 1]) = ["row of 0"] := by decide +kernel
+example : ipcaRows ["row of 1", "row of 0"] (ipcaKeep (1/2) [1, 0]) = ["row of 1"] := by decide +kernel
+example : ipcaKeep defaultEps (ipcaEigs 4 [8, 2, 1/10000000000, 0]) = [2, 1/2] := by decide +kernel
+
+
+/-! ### when the two storages agree -/
+
+theorem blk_tri (k x y : Nat) : (x = y) ∨ (x * k + k ≤ y * k) ∨ (y * k + k ≤ x * k) := by
+  rcases Nat.lt_trichotomy x y with h | h | h
+  · right; left
+    have := Nat.mul_le_mul_right k (Nat.succ_le_of_lt h)
+    rw [Nat.succ_mul] at this; exact this
+  · left; exact h
+  · right; right
+    have := Nat.mul_le_mul_right k (Nat.succ_le_of_lt h)
+    rw [Nat.succ_mul] at this; exact this
+
+/-- `(i, j)` lies in one of the two off-diagonal blocks of the edge `(v1, v2)` -/
+def inOff (k v1 v2 i j : Nat) : Prop :=
+  (v1 * k ≤ i ∧ i < v1 * k + k ∧ v2 * k ≤ j ∧ j < v2 * k + k) ∨
+  (v2 * k ≤ i ∧ i < v2 * k + k ∧ v1 * k ≤ j ∧ j < v1 * k + k)
+
+/-- the two ways of storing one edge agree at `(i, j)` when the running matrices agree there and the dense one is
+still zero on the edge's off-diagonal blocks -/
+theorem storeEdge_eq_sparse (mode : Mode) (k : Nat) (P Q : Mat) (v1 v2 : Nat) (inv : Mat) (i j : Nat)
+    (hv : v1 ≠ v2) (hPQ : P i j = Q i j) (hz : inOff k v1 v2 i j → P i j = 0) :
+    storeEdge mode k P v1 v2 inv i j = storeEdgeSparse mode k Q v1 v2 inv i j := by
+  have ht := blk_tri k v1 v2
+  unfold inOff at hz
+  cases mode <;>
+  · simp only [storeEdge, storeEdgeSparse, addBlock, setBlock, negM]
+    generalize v1 * k = a at *
+    generalize v2 * k = b at *
+    split_ifs <;> first
+      | omega
+      | (rw [← hPQ]; done)
+      | (rw [← hPQ, hz (by omega)]; simp)
+
+/-- an entry in an off-diagonal block of another vertex pair is not touched by the dense store of `(v1, v2)` -/
+theorem storeEdge_outside (mode : Mode) (k : Nat) (P : Mat) (v1 v2 w1 w2 : Nat) (inv : Mat) (i j : Nat)
+    (hw : w1 ≠ w2) (hne : ¬ ((w1 = v1 ∧ w2 = v2) ∨ (w1 = v2 ∧ w2 = v1))) (hin : inOff k w1 w2 i j) :
+    storeEdge mode k P v1 v2 inv i j = P i j := by
+  have t1 := blk_tri k w1 v1
+  have t2 := blk_tri k w1 v2
+  have t3 := blk_tri k w2 v1
+  have t4 := blk_tri k w2 v2
+  have t5 := blk_tri k w1 w2
+  unfold inOff at hin
+  have e1 : w1 = v1 → w1 * k = v1 * k := fun h => by rw [h]
+  have e2 : w1 = v2 → w1 * k = v2 * k := fun h => by rw [h]
+  have e3 : w2 = v1 → w2 * k = v1 * k := fun h => by rw [h]
+  have e4 : w2 = v2 → w2 * k = v2 * k := fun h => by rw [h]
+  cases mode <;>
+  · simp only [storeEdge, addBlock, setBlock, negM]
+    generalize v1 * k = a at *
+    generalize v2 * k = b at *
+    generalize w1 * k = c at *
+    generalize w2 * k = d at *
+    split_ifs <;> first | rfl | omega
+
+/-- the graph has no loop and no two edges on the same pair of vertices (in either orientation) -/
+def SimpleEdges (es : List (Nat × Nat)) : Prop :=
+  (∀ e, e < es.length → (es.getD e (0, 0)).1 ≠ (es.getD e (0, 0)).2) ∧
+  (∀ e, e < es.length → ∀ e', e' < es.length → e ≠ e' →
+    ¬ (((es.getD e' (0, 0)).1 = (es.getD e (0, 0)).1 ∧ (es.getD e' (0, 0)).2 = (es.getD e (0, 0)).2) ∨
+       ((es.getD e' (0, 0)).1 = (es.getD e (0, 0)).2 ∧ (es.getD e' (0, 0)).2 = (es.getD e (0, 0)).1)))
+
+instance (es : List (Nat × Nat)) : Decidable (SimpleEdges es) := by
+  unfold SimpleEdges; infer_instance
+
+theorem dense_sparse_prefix (mode : Mode) (k : Nat) (es : List (Nat × Nat)) (blk : Nat → Mat)
+    (hs : SimpleEdges es) : ∀ n, n ≤ es.length →
+    (∀ i j, (List.range n).foldl (fun P e => storeEdge mode k P (es.getD e (0, 0)).1 (es.getD e (0, 0)).2 (blk e))
+              (fun _ _ => 0) i j
+          = (List.range n).foldl (fun P e => storeEdgeSparse mode k P (es.getD e (0, 0)).1 (es.getD e (0, 0)).2 (blk e))
+              (fun _ _ => 0) i j) ∧
+    (∀ e, n ≤ e → e < es.length → ∀ i j, inOff k (es.getD e (0, 0)).1 (es.getD e (0, 0)).2 i j →
+      (List.range n).foldl (fun P e => storeEdge mode k P (es.getD e (0, 0)).1 (es.getD e (0, 0)).2 (blk e))
+              (fun _ _ => 0) i j = 0) := by
+  intro n
+  induction n with
+  | zero => intro _; exact ⟨fun _ _ => rfl, fun _ _ _ _ _ _ => rfl⟩
+  | succ n ih =>
+    intro hn
+    obtain ⟨hA, hB⟩ := ih (by omega)
+    have hlt : n < es.length := by omega
+    simp only [List.range_succ, List.foldl_append, List.foldl_cons, List.foldl_nil]
+    refine ⟨fun i j => ?_, fun e he hel i j hin => ?_⟩
+    · exact storeEdge_eq_sparse mode k _ _ _ _ _ i j (hs.1 n hlt) (hA i j) (hB n (Nat.le_refl n) hlt i j)
+    · rw [storeEdge_outside mode k _ _ _ (es.getD e (0, 0)).1 (es.getD e (0, 0)).2 _ i j (hs.1 e hel)
+        (hs.2 n hlt e hel (by omega)) hin]
+      exact hB e (by omega) hel i j hin
+
+/-- PROPERTY (storage independence on simple graphs): without loops and without two edges on the same pair of
+vertices the dense array (off-diagonal blocks assigned) and the BSR matrix (duplicates summed) hold the same
+precision, for both modes and the edgeless case, whatever the blocks -/
+theorem dense_eq_sparse_of_simple (g : GSpec) (blk : Nat → Mat) (hs : SimpleEdges g.edges) :
+    precisionOf g blk = precisionOfSparse g blk := by
+  funext i j
+  unfold precisionOf precisionOfSparse
+  split
+  · -- one block per vertex: `set` on a zero background is `add`
+    have key : ∀ n, (∀ i j, (List.range n).foldl (fun P v => setBlock P (v * g.k) (v * g.k) g.k (blk v) 0 0) (fun _ _ => 0) i j
+          = (List.range n).foldl (fun P v => addBlock P (v * g.k) (v * g.k) g.k (blk v) 0 0) (fun _ _ => 0) i j) ∧
+        (∀ v, n ≤ v → ∀ i j, (v * g.k ≤ i ∧ i < v * g.k + g.k ∧ v * g.k ≤ j ∧ j < v * g.k + g.k) →
+          (List.range n).foldl (fun P v => setBlock P (v * g.k) (v * g.k) g.k (blk v) 0 0) (fun _ _ => 0) i j = 0) := by
+      intro n
+      induction n with
+      | zero => exact ⟨fun _ _ => rfl, fun _ _ _ _ _ => rfl⟩
+      | succ n ih =>
+        obtain ⟨hA, hB⟩ := ih
+        simp only [List.range_succ, List.foldl_append, List.foldl_cons, List.foldl_nil]
+        refine ⟨fun i j => ?_, fun v hv i j hin => ?_⟩
+        · simp only [setBlock, addBlock]
+          split_ifs with h
+          · rw [← hA i j, hB n (Nat.le_refl n) i j h]; simp
+          · exact hA i j
+        · have t := blk_tri g.k v n
+          have hB' := hB v (by omega) i j hin
+          simp only [setBlock]
+          generalize v * g.k = a at *
+          generalize n * g.k = b at *
+          split_ifs with h
+          · omega
+          · exact hB'
+    exact (key g.nv).1 i j
+  · exact (dense_sparse_prefix g.mode g.k g.edges blk hs g.edges.length (Nat.le_refl _)).1 i j
+
+example : SimpleEdges [(0, 1), (1, 2), (2, 0)] := by decide
+example : ¬ SimpleEdges [(0, 1), (1, 0)] := by decide
+
+
+/-- hence on simple graphs the `sparse` flag does not change the stored precision -/
+theorem precisionStored_storage_independent (g : GSpec) (inv : Mat → Mat) (cov : Nat → Mat)
+    (hs : SimpleEdges g.edges) : precisionStored true g inv cov = precisionStored false g inv cov := by
+  simp only [precisionStored, if_true, Bool.false_eq_true, if_false, precision]
+  exact (dense_eq_sparse_of_simple g _ hs).symm
+
 /-! ## Part II — the `R`-matrix construction of `ipca`, QR and SVD as contract parameters -/
 
 open Matrix
@@ -408,5 +806,332 @@ example : (ipcaR exUa (fun _ => 1) exB exBt)ᵀ * ipcaR exUa (fun _ => 1) exB ex
   decide +kernel
 example : exVt * exVtᵀ = 1 ∧ exBt * exUaᵀ = 0 ∧ exUa * exUaᵀ = 1 ∧ exBt * exBtᵀ = 1 := by decide +kernel
 end Example
+
+/-! ## Part II (continued) — no full-rank hypothesis; the chain of increments -/
+
+
+/-- `(U, σ)` is an eigen-decomposition of `S` without zero eigenvalues: what a PCA model stores -/
+structure RepM {c : Type} [Fintype c] [DecidableEq c] (S : Matrix d d ℚ) (U : Matrix c d ℚ) (σ : c → ℚ) : Prop where
+  orth : U * Uᵀ = 1
+  nz : ∀ i, σ i ≠ 0
+  rep : Uᵀ * diagonal σ * U = S
+
+theorem RepM.eigen {c : Type} [Fintype c] [DecidableEq c] {S : Matrix d d ℚ} {U : Matrix c d ℚ} {σ : c → ℚ}
+    (h : RepM S U σ) : S * Uᵀ = Uᵀ * diagonal σ :=
+  eigen_of_representation U σ S h.orth h.rep
+
+/-- PROPERTY (no full-rank hypothesis): the rows of `U = Vt·[U_a; B̃]` belonging to non-zero singular values of `R`
+are orthonormal — `[U_a; B̃]` itself need not have orthonormal rows (rank-deficient residual, more new rows than
+unexplored dimensions) -/
+theorem ipca_rows_orthonormal (Ua : Matrix k d ℚ) (sa : k → ℚ) (B : Matrix m d ℚ) (Bt : Matrix q d ℚ)
+    (Vt : Matrix (k ⊕ q) (k ⊕ q) ℚ) (σ : k ⊕ q → ℚ)
+    (hUa : Ua * Uaᵀ = 1)
+    (hqr : projOut Ua B * Btᵀ * Bt = projOut Ua B)
+    (hsvd : (ipcaR Ua sa B Bt)ᵀ * ipcaR Ua sa B Bt = Vtᵀ * diagonal σ * Vt) (hV : Vt * Vtᵀ = 1)
+    (i j : k ⊕ q) (hi : σ i ≠ 0) (hj : σ j ≠ 0) :
+    ((Vt * fromRows Ua Bt) * (Vt * fromRows Ua Bt)ᵀ) i j = if i = j then 1 else 0 := by
+  apply kept_rows_orthonormal σ _ _ i j hi hj
+  apply svd_rows_gram (ipcaR Ua sa B Bt) (fromRows Ua Bt) Vt σ hsvd hV
+  rw [ipcaR_mul_W Ua sa B Bt hqr, ipcaR_gram Ua sa B Bt hUa hqr]
+
+/-- PROPERTY (one `ipca` step, any forgetting factor `f`, any residual rank): a stored eigen-decomposition of `S_a`
+is turned into an eigen-decomposition of `f² S_a + BᵀB` by keeping exactly the rows with non-zero `σ` -/
+theorem ipca_step_repM (f : ℚ) (Sa : Matrix d d ℚ) (Ua : Matrix k d ℚ) (σa sa : k → ℚ) (h : RepM Sa Ua σa)
+    (hsa : ∀ i, sa i * sa i = σa i) (B : Matrix m d ℚ) (Bt : Matrix q d ℚ)
+    (Vt : Matrix (k ⊕ q) (k ⊕ q) ℚ) (σ : k ⊕ q → ℚ)
+    (hqr : projOut Ua B * Btᵀ * Bt = projOut Ua B)
+    (hsvd : (ipcaR Ua (fun i => f * sa i) B Bt)ᵀ * ipcaR Ua (fun i => f * sa i) B Bt = Vtᵀ * diagonal σ * Vt)
+    (hV : Vt * Vtᵀ = 1) (p : k ⊕ q → Prop) [DecidablePred p] (hp : ∀ i, p i ↔ σ i ≠ 0) :
+    RepM ((f * f) • Sa + Bᵀ * B) (keptU p (Vt * fromRows Ua Bt)) (keptσ p σ) := by
+  refine ⟨?_, fun i => (hp i.val).mp i.property, ?_⟩
+  · ext i j
+    rw [keptU_gram, ipca_rows_orthonormal Ua _ B Bt Vt σ h.orth hqr hsvd hV i.val j.val
+      ((hp _).mp i.property) ((hp _).mp j.property), Matrix.one_apply]
+    simp only [Subtype.ext_iff]
+  · rw [kept_represents p _ σ (fun i hi => by by_contra h0; exact hi ((hp i).mpr h0)),
+      ipca_scatter_exact Ua _ B Bt Vt σ hqr hsvd]
+    congr 1
+    rw [← h.rep]
+    have : diagonal (fun i => f * sa i * (f * sa i)) = (f * f) • diagonal σa := by
+      ext i j; by_cases hij : i = j
+      · subst hij; simp [← hsa i]; ring
+      · simp [hij]
+    rw [this, Matrix.mul_smul, Matrix.smul_mul]
+
+
+/-! ### the chain: every state reachable by `pca` + increments is an eigen-decomposition of the batch scatter -/
+
+/-- the scatter whose eigen-decomposition batch `pca(X, centre)` returns (divided by `n − 1`), as a matrix -/
+def scatterM (n : Nat) (centred : Bool) (X : Data) : Matrix (Fin n) (Fin n) ℚ :=
+  fun i j => (pcaBatch centred X).scat i j
+
+/-- the matrix `B` that `ipca` hands to its `R` construction: the new rows as they are (uncentred), or centred on
+their own mean with the pseudo-sample `r (m_b − m_a)` stacked below -/
+def augData (centred : Bool) (X Bd : Data) (r : ℚ) : Data :=
+  if centred then centre Bd (mean Bd) ++ [fun c => r * (mean Bd c - mean X c)] else Bd
+
+theorem scatter_step (n : Nat) (centred : Bool) (X Bd : Data) (hX : X ≠ []) (hB : Bd ≠ []) (r : ℚ)
+    (hr : centred = true → r * r = (X.length : ℚ) * (Bd.length : ℚ) / ((X.length : ℚ) + (Bd.length : ℚ))) :
+    (1 * 1 : ℚ) • scatterM n centred X + (matOfData n (augData centred X Bd r))ᵀ * matOfData n (augData centred X Bd r)
+      = scatterM n centred (X ++ Bd) := by
+  ext i j
+  rw [Matrix.add_apply, Matrix.smul_apply, matOfData_gram]
+  cases centred
+  · have h := congrArg (fun s => s.scat i.val j.val) (ipca_uncentred_step X Bd)
+    simp only [ipcaUncentred] at h
+    simp only [scatterM, augData, Bool.false_eq_true, if_false, smul_eq_mul]
+    rw [← h]; ring
+  · simp only [scatterM, augData, if_true, pcaBatch, smul_eq_mul]
+    rw [pseudo_sample_gram _ _ r _ (hr rfl), scatter_union_identity X Bd hX hB]; ring
+
+/-- what a PCA model stores: an index type for the components, the components and `(n − 1)·eigenvalues` -/
+structure Decomp (n : Nat) where
+  c : Type
+  [fin : Fintype c]
+  [dec : DecidableEq c]
+  U : Matrix c (Fin n) ℚ
+  σ : c → ℚ
+
+attribute [instance] Decomp.fin Decomp.dec
+
+/-- the rows `ipca` keeps: `l = s̃² / (n − 1)`, `l > eps` -/
+def keepRow {c : Type} (eps nm1 : ℚ) (σ : c → ℚ) (i : c) : Prop := eps < σ i / nm1
+
+instance {c : Type} (eps nm1 : ℚ) (σ : c → ℚ) : DecidablePred (keepRow eps nm1 σ) := fun i => by
+  unfold keepRow; infer_instance
+
+/-- everything a `PCAVectorModel` can hold after `pca(X₀)` and any number of `increment` calls (no forgetting),
+for *any* results of sqrt / qr / svd that satisfy their contracts; `hgap`: no eigenvalue in `(0, eps]` -/
+inductive IpcaReach (n : Nat) (eps : ℚ) (centred : Bool) : Data → Decomp n → Prop
+  | batch (X : Data) (D : Decomp n) (hX : X ≠ []) (h : RepM (scatterM n centred X) D.U D.σ) :
+      IpcaReach n eps centred X D
+  | step (X Bd : Data) (D : Decomp n) (prev : IpcaReach n eps centred X D) (hB : Bd ≠ [])
+      (sa : D.c → ℚ) (hsa : ∀ i, sa i * sa i = D.σ i)
+      (r : ℚ) (hr : centred = true → r * r = (X.length : ℚ) * (Bd.length : ℚ) / ((X.length : ℚ) + (Bd.length : ℚ)))
+      (q : Type) [Fintype q] [DecidableEq q] (Bt : Matrix q (Fin n) ℚ)
+      (Vt : Matrix (D.c ⊕ q) (D.c ⊕ q) ℚ) (σ : D.c ⊕ q → ℚ)
+      (hqr : projOut D.U (matOfData n (augData centred X Bd r)) * Btᵀ * Bt
+              = projOut D.U (matOfData n (augData centred X Bd r)))
+      (hsvd : (ipcaR D.U (fun i => 1 * sa i) (matOfData n (augData centred X Bd r)) Bt)ᵀ
+                * ipcaR D.U (fun i => 1 * sa i) (matOfData n (augData centred X Bd r)) Bt
+              = Vtᵀ * diagonal σ * Vt)
+      (hV : Vt * Vtᵀ = 1)
+      (hgap : ∀ i, σ i = 0 ∨ eps < σ i / (((X ++ Bd).length : ℚ) - 1)) :
+      IpcaReach n eps centred (X ++ Bd)
+        ⟨{i // keepRow eps (((X ++ Bd).length : ℚ) - 1) σ i},
+         keptU (keepRow eps (((X ++ Bd).length : ℚ) - 1) σ) (Vt * fromRows D.U Bt),
+         keptσ (keepRow eps (((X ++ Bd).length : ℚ) - 1) σ) σ⟩
+
+theorem keepRow_iff {c : Type} (eps nm1 : ℚ) (σ : c → ℚ) (heps : 0 ≤ eps)
+    (hgap : ∀ i, σ i = 0 ∨ eps < σ i / nm1) (i : c) : keepRow eps nm1 σ i ↔ σ i ≠ 0 := by
+  unfold keepRow
+  constructor
+  · intro h h0
+    rw [h0, zero_div] at h
+    exact absurd h (not_lt.mpr heps)
+  · intro h
+    rcases hgap i with h0 | h1
+    · exact absurd h0 h
+    · exact h1
+
+/-- PROPERTY (invariant by induction over the increments): whatever qr / svd / sqrt return within their contracts,
+and whatever the rank of the residuals, the model state after any list of increments has orthonormal components,
+no zero eigenvalue, and represents the scatter of *all* the data — it is an eigen-decomposition of the batch
+scatter -/
+theorem ipca_reach_represents (n : Nat) (eps : ℚ) (heps : 0 ≤ eps) (centred : Bool) (X : Data) (D : Decomp n)
+    (h : IpcaReach n eps centred X D) : X ≠ [] ∧ RepM (scatterM n centred X) D.U D.σ := by
+  induction h with
+  | batch X D hX h => exact ⟨hX, h⟩
+  | step X Bd D prev hB sa hsa r hr q Bt Vt σ hqr hsvd hV hgap ih =>
+    obtain ⟨hX, hrep⟩ := ih
+    refine ⟨by simp [hX], ?_⟩
+    have := ipca_step_repM 1 (scatterM n centred X) D.U D.σ sa hrep hsa _ Bt Vt σ hqr hsvd hV
+      (keepRow eps (((X ++ Bd).length : ℚ) - 1) σ) (keepRow_iff eps _ σ heps hgap)
+    rw [scatter_step n centred X Bd hX hB r hr] at this
+    exact this
+
+
+
+/-- PROPERTY (principal subspace, chunking independence): any two states reachable from the same data — whatever the
+cut into increments, whatever qr / svd returned, in particular the batch decomposition itself — have the same
+projector `UᵀU`, i.e. the same principal subspace, and both diagonalise the same scatter -/
+theorem ipca_reach_subspace_unique (n : Nat) (eps : ℚ) (heps : 0 ≤ eps) (centred : Bool) (X : Data)
+    (D₁ D₂ : Decomp n) (h₁ : IpcaReach n eps centred X D₁) (h₂ : IpcaReach n eps centred X D₂) :
+    D₁.Uᵀ * D₁.U = D₂.Uᵀ * D₂.U := by
+  have r₁ := (ipca_reach_represents n eps heps centred X D₁ h₁).2
+  have r₂ := (ipca_reach_represents n eps heps centred X D₂ h₂).2
+  exact principal_subspace_unique D₁.U D₂.U D₁.σ D₂.σ r₁.orth r₂.orth r₁.nz r₂.nz (r₁.rep.trans r₂.rep.symm)
+
+/-- the weakest hypothesis on the discard, exactly: given that the rows with non-zero `σ` are orthonormal (which
+`ipca_rows_orthonormal` provides), the kept rows represent the same matrix **iff** every discarded row has `σ = 0` -/
+theorem kept_represents_iff {c : Type} [Fintype c] [DecidableEq c] (p : c → Prop) [DecidablePred p]
+    (U : Matrix c d ℚ) (σ : c → ℚ)
+    (horth : ∀ i j, σ i ≠ 0 → σ j ≠ 0 → (U * Uᵀ) i j = if i = j then 1 else 0) :
+    (keptU p U)ᵀ * diagonal (keptσ p σ) * keptU p U = Uᵀ * diagonal σ * U ↔ ∀ i, ¬ p i → σ i = 0 := by
+  constructor
+  · intro h j hj
+    by_contra hσ
+    have hloss : ∀ a b, ∑ i ∈ Finset.univ.filter (fun i => ¬ p i), σ i * U i a * U i b = 0 := by
+      intro a b
+      have := kept_represents_loss p U σ a b
+      rw [h] at this
+      linarith
+    -- contract with row `j` on both sides
+    have h2 : ∑ a, ∑ b, (∑ i ∈ Finset.univ.filter (fun i => ¬ p i), σ i * U i a * U i b) * (U j a * U j b) = 0 := by
+      simp [hloss]
+    have h3 : ∑ a, ∑ b, (∑ i ∈ Finset.univ.filter (fun i => ¬ p i), σ i * U i a * U i b) * (U j a * U j b)
+        = ∑ i ∈ Finset.univ.filter (fun i => ¬ p i), σ i * ((U * Uᵀ) i j * (U * Uᵀ) i j) := by
+      simp only [Finset.sum_mul]
+      rw [Finset.sum_comm]
+      conv_lhs => enter [2, a]; rw [Finset.sum_comm]
+      rw [Finset.sum_comm]
+      apply Finset.sum_congr rfl
+      intro i _
+      simp only [Matrix.mul_apply, Matrix.transpose_apply, Finset.mul_sum, Finset.sum_mul]
+      rw [Finset.sum_comm]
+      apply Finset.sum_congr rfl; intro a _
+      apply Finset.sum_congr rfl; intro b _
+      ring
+    rw [h3] at h2
+    have h4 : ∑ i ∈ Finset.univ.filter (fun i => ¬ p i), σ i * ((U * Uᵀ) i j * (U * Uᵀ) i j) = σ j := by
+      rw [Finset.sum_eq_single j]
+      · rw [horth j j hσ hσ]; simp
+      · intro i _ hij
+        by_cases hi : σ i = 0
+        · rw [hi]; ring
+        · rw [horth i j hi hσ]; simp [hij]
+      · intro hnot; exact absurd (by simpa using hj) hnot
+    rw [h4] at h2
+    exact hσ h2
+  · exact kept_represents p U σ
+
+/-! rank-deficient residual, concretely: `U_a = e₀` in the plane, two new rows `(0,2), (1,0)`; the residuals are
+`(0,2), (0,0)`, the (non-pivoted, Householder) QR of the 2×2 residual matrix returns *two* orthonormal rows
+`B̃ = e₁, e₀`, so `[U_a; B̃] = e₀, e₁, e₀` does not have orthonormal rows and `B̃ U_aᵀ ≠ 0`: the full-rank contract
+of `ipca_components_orthonormal` fails, the contracts of `ipca_step_repM` hold, and the kept rows are `e₁, e₀` -/
+section RankDeficient
+def rdUa : Matrix (Fin 1) (Fin 2) ℚ := !![1, 0]
+def rdB : Matrix (Fin 2) (Fin 2) ℚ := !![0, 2; 1, 0]
+def rdBt : Matrix (Fin 2) (Fin 2) ℚ := !![0, 1; 1, 0]
+def rdVt : Matrix (Fin 1 ⊕ Fin 2) (Fin 1 ⊕ Fin 2) ℚ :=
+  fromBlocks !![0] !![1, 0] !![1; 0] !![0, 0; 0, 1]
+def rdσ : Fin 1 ⊕ Fin 2 → ℚ := Sum.elim (fun _ => 4) ![2, 0]
+
+example : projOut rdUa rdB = !![0, 2; 0, 0] := by decide +kernel
+example : projOut rdUa rdB * rdBtᵀ * rdBt = projOut rdUa rdB := by decide +kernel
+example : (ipcaR rdUa (fun i => 1 * (fun _ => 1) i) rdB rdBt)ᵀ * ipcaR rdUa (fun i => 1 * (fun _ => 1) i) rdB rdBt
+    = rdVtᵀ * diagonal rdσ * rdVt := by decide +kernel
+example : rdVt * rdVtᵀ = 1 ∧ rdUa * rdUaᵀ = 1 := by decide +kernel
+example : rdBt * rdUaᵀ ≠ 0 := by decide +kernel
+example : fromRows rdUa rdBt * (fromRows rdUa rdBt)ᵀ ≠ 1 := by decide +kernel
+example : RepM (!![1, 0; 0, 0] : Matrix (Fin 2) (Fin 2) ℚ) rdUa (fun _ => 1) :=
+  ⟨by decide +kernel, by decide +kernel, by decide +kernel⟩
+example : ((1 : ℚ) * 1) • (!![1, 0; 0, 0] : Matrix (Fin 2) (Fin 2) ℚ) + rdBᵀ * rdB = !![2, 0; 0, 4] := by
+  decide +kernel
+end RankDeficient
+
+/-- the gap hypothesis `hgap` of `IpcaReach.step` cannot be dropped: `U_a = e₀`, `σ_a = 1`, new row `(0, 1/2)`,
+`n − 1 = 1`, `eps = 1/2`: the new eigenvalue `1/4` is positive but not `> eps`, its row is discarded, and the kept
+pair represents `diag(1, 0)` instead of the scatter `diag(1, 1/4)` -/
+def gapUa : Matrix (Fin 1) (Fin 2) ℚ := !![1, 0]
+def gapB : Matrix (Fin 1) (Fin 2) ℚ := !![0, 1/2]
+def gapBt : Matrix (Fin 1) (Fin 2) ℚ := !![0, 1]
+def gapVt : Matrix (Fin 1 ⊕ Fin 1) (Fin 1 ⊕ Fin 1) ℚ := 1
+def gapσ : Fin 1 ⊕ Fin 1 → ℚ := Sum.elim (fun _ => 1) (fun _ => 1/4)
+
+theorem ipca_eps_gap_needed :
+    projOut gapUa gapB * gapBtᵀ * gapBt = projOut gapUa gapB ∧
+    (ipcaR gapUa (fun _ => 1) gapB gapBt)ᵀ * ipcaR gapUa (fun _ => 1) gapB gapBt
+      = gapVtᵀ * diagonal gapσ * gapVt ∧ gapVt * gapVtᵀ = 1 ∧
+    (gapUaᵀ * diagonal (fun _ : Fin 1 => (1 : ℚ)) * gapUa + gapBᵀ * gapB : Matrix (Fin 2) (Fin 2) ℚ) 1 1 = 1/4 ∧
+    ((keptU (keepRow (1/2) 1 gapσ) (gapVt * fromRows gapUa gapBt))ᵀ * diagonal (keptσ (keepRow (1/2) 1 gapσ) gapσ)
+        * keptU (keepRow (1/2) 1 gapσ) (gapVt * fromRows gapUa gapBt)) 1 1 = 0 := by
+  refine ⟨?_, ?_, ?_, ?_, ?_⟩ <;> decide +kernel
+
+
+
+/-- non-vacuity of `IpcaReach.step` with a rank-deficient residual and the live default of `eps` -/
+example : ∃ D : Decomp 2, IpcaReach 2 defaultEps false ([ex1 [1, 0]] ++ [ex1 [0, 2], ex1 [1, 0]]) D :=
+  ⟨_, IpcaReach.step [ex1 [1, 0]] [ex1 [0, 2], ex1 [1, 0]] ⟨Fin 1, rdUa, fun _ => 1⟩
+    (IpcaReach.batch _ _ (List.cons_ne_nil _ _) ⟨by decide +kernel, by decide +kernel, by decide +kernel⟩)
+    (List.cons_ne_nil _ _) (fun _ => 1) (by decide +kernel) 0 (by intro h; cases h) (Fin 2) rdBt rdVt rdσ
+    (by decide +kernel) (by decide +kernel) (by decide +kernel) (by decide +kernel)⟩
+
+/-- PROPERTY (number of components): a stored eigen-decomposition without zero eigenvalues has exactly
+`rank S` components — after any increments the model has as many components as the batch scatter has rank -/
+theorem RepM.card_eq_rank {c : Type} [Fintype c] [DecidableEq c] {S : Matrix d d ℚ} {U : Matrix c d ℚ} {σ : c → ℚ}
+    (h : RepM S U σ) : S.rank = Fintype.card c := by
+  apply le_antisymm
+  · rw [← h.rep]
+    calc (Uᵀ * diagonal σ * U).rank ≤ U.rank := Matrix.rank_mul_le_right _ _
+      _ ≤ Fintype.card c := Matrix.rank_le_card_height U
+  · have hD : diagonal σ = U * S * Uᵀ := by
+      rw [← h.rep]
+      calc diagonal σ = (U * Uᵀ) * diagonal σ * (U * Uᵀ) := by rw [h.orth]; simp
+        _ = U * (Uᵀ * diagonal σ * U) * Uᵀ := by simp only [Matrix.mul_assoc]
+    have h1 : (diagonal σ).rank = Fintype.card c := by
+      rw [Matrix.rank_diagonal]
+      simp [h.nz]
+    rw [← h1, hD]
+    calc (U * S * Uᵀ).rank ≤ (U * S).rank := Matrix.rank_mul_le_left _ _
+      _ ≤ S.rank := Matrix.rank_mul_le_right _ _
+
+
+/-- PROPERTY: after any list of increments the number of components equals the rank of the scatter of all the
+data, for every reachable state -/
+theorem ipca_reach_card_eq_rank (n : Nat) (eps : ℚ) (heps : 0 ≤ eps) (centred : Bool) (X : Data) (D : Decomp n)
+    (h : IpcaReach n eps centred X D) : (scatterM n centred X).rank = Fintype.card D.c :=
+  (ipca_reach_represents n eps heps centred X D h).2.card_eq_rank
+
+/-- … and every reachable state diagonalises the batch scatter: `S Uᵀ = Uᵀ diag(σ)` -/
+theorem ipca_reach_eigen (n : Nat) (eps : ℚ) (heps : 0 ≤ eps) (centred : Bool) (X : Data) (D : Decomp n)
+    (h : IpcaReach n eps centred X D) : scatterM n centred X * D.Uᵀ = D.Uᵀ * diagonal D.σ :=
+  (ipca_reach_represents n eps heps centred X D h).2.eigen
+
+section Eigenvalues
+open Polynomial
+
+theorem RepM.charpoly {c : Type} [Fintype c] [DecidableEq c] {S : Matrix d d ℚ} {U : Matrix c d ℚ} {σ : c → ℚ}
+    (h : RepM S U σ) :
+    X ^ Fintype.card d * (∏ i, (X - C (σ i)) : ℚ[X]) = X ^ Fintype.card c * S.charpoly := by
+  have hAB : U * (S * Uᵀ) = diagonal σ := by
+    rw [h.eigen, ← Matrix.mul_assoc, h.orth, Matrix.one_mul]
+  have hBA : (S * Uᵀ) * U = S := by
+    rw [h.eigen, h.rep]
+  have := Matrix.charpoly_mul_comm' U (S * Uᵀ)
+  rw [hAB, hBA, Matrix.charpoly_diagonal] at this
+  exact this
+
+/-- PROPERTY (eigenvalues): two eigen-decompositions without zero eigenvalues of the same matrix carry the same
+eigenvalues with the same multiplicities -/
+theorem RepM.eigenvalues_unique {c₁ c₂ : Type} [Fintype c₁] [Fintype c₂] [DecidableEq c₁] [DecidableEq c₂]
+    {S : Matrix d d ℚ} {U₁ : Matrix c₁ d ℚ} {U₂ : Matrix c₂ d ℚ} {σ₁ : c₁ → ℚ} {σ₂ : c₂ → ℚ}
+    (h₁ : RepM S U₁ σ₁) (h₂ : RepM S U₂ σ₂) :
+    Finset.univ.val.map σ₁ = Finset.univ.val.map σ₂ := by
+  have hc : Fintype.card c₁ = Fintype.card c₂ := by rw [← h₁.card_eq_rank, ← h₂.card_eq_rank]
+  have e₁ := h₁.charpoly
+  have e₂ := h₂.charpoly
+  rw [hc] at e₁
+  have hp : (∏ i, (X - C (σ₁ i)) : ℚ[X]) = ∏ i, (X - C (σ₂ i)) := by
+    have := e₁.trans e₂.symm
+    exact (isRegular_X_pow _).left.eq_iff.mp this
+  have r : ∀ {c : Type} [Fintype c] (σ : c → ℚ), (∏ i, (X - C (σ i)) : ℚ[X]).roots = Finset.univ.val.map σ := by
+    intro c _ σ
+    have : (∏ i, (X - C (σ i)) : ℚ[X]) = ((Finset.univ.val.map σ).map fun a => X - C a).prod := by
+      rw [Multiset.map_map]; rfl
+    rw [this, roots_multiset_prod_X_sub_C]
+  rw [← r σ₁, ← r σ₂, hp]
+
+
+end Eigenvalues
+
+/-- PROPERTY (eigenvalues, chunking independence): any two states reachable from the same data — in particular
+the incrementally fed model and the batch model — hold the same eigenvalues with the same multiplicities (the
+stored eigenvalues are `σ / (n − 1)` with the same `n`) -/
+theorem ipca_reach_eigenvalues_unique (n : Nat) (eps : ℚ) (heps : 0 ≤ eps) (centred : Bool) (X : Data)
+    (D₁ D₂ : Decomp n) (h₁ : IpcaReach n eps centred X D₁) (h₂ : IpcaReach n eps centred X D₂) :
+    Finset.univ.val.map D₁.σ = Finset.univ.val.map D₂.σ :=
+  (ipca_reach_represents n eps heps centred X D₁ h₁).2.eigenvalues_unique
+    (ipca_reach_represents n eps heps centred X D₂ h₂).2
 
 end MenpoModel.C11
